@@ -47,12 +47,14 @@ CONTROLS = {
                  ("Throttle.mc.cfg", {"Bug": '"no_set_on_done"'}, "ContractHoldsButD6"),
                  ("Throttle.dyn.cfg", {"Bug": '"off_by_one"'}, "ContractHolds"),
                  ("Throttle.mc5.cfg", {"Bug": '"release_after_callbacks"'}, "ContractHolds"),
+                 ("Throttle.dyn4.cfg", {"Bug": '"unlimited_uncounted"'}, "CounterSound"),
                  ("Throttle.mc4.cfg", {"Bug": '"rotate_on_cancel"'}, "ContractHoldsButD6", "thorough")],
     "Timeout": [("Timeout.mc.cfg", {"Bug": '"deadline_first"'}, "ContractHolds"),
                 ("Timeout.mc.cfg", {"Bug": '"drop_pending"'}, "NoJobLost"),
                 ("Timeout.mc4.cfg", {"Bug": '"early"'}, "ContractHolds"),
                 ("Timeout.mc5.cfg", {"Bug": '"stale_now"'}, "ContractHolds"),
                 ("Timeout.mc.cfg", {"Bug": '"wake_only_if_empty"'}, "ContractHolds"),
+                ("Timeout.mc.cfg", {"Bug": '"partition_unlocked"'}, "NoJobLost"),
                 ("Timeout.mc.cfg", {"Bug": '"no_set_on_submit"'}, "NoTimerlessSleepWithWork")],
     "WorkerLoop": [("WorkerLoop.mc.cfg", {"Bug": '"clear_before_wait"'}, "ThreadExits"),
                    ("WorkerLoop.mc.cfg", {"Bug": '"no_set_on_shutdown"'}, "ThreadExits"),
